@@ -80,6 +80,7 @@ def _(self: "newobj:XorEncodedFile", fh: "file", nonce_offset: "int"):
     ensures(file_pos(fh) == (nonce_offset if nonce_offset >= len(file_content(fh))
                              else min(nonce_offset + 8, len(file_content(fh)))))
     returns("none")
+    domain(self=lit(None), fh=files(alphabet=b"\x01\x02", maxlen=4) + gen_xorencoded_files()[:6], nonce_offset=ints(0, 1, 2, 9))
 
 
 @contract("dissect.cobaltstrike.xordecode:iter_nonce_offsets", mode="all", props=["C09"])
@@ -89,6 +90,78 @@ def _(fh: "file", real_size: "opt[int]", maxrange: "int"):
     yields("int")
     terminates()
     ghost(entry=True, do=[let("E", file_content(fh)), let("rs", len(file_content(fh)) if real_size is None else real_size)])
-    ensures(yielded == nonce_offsets(E, rs, min(maxrange, max(len(E) - 7, 0))))
-    loop(0, index="k", invariant=[real_size == rs, k <= max(len(E) - 7, 0), yielded == nonce_offsets(E, rs, k)])
+    ensures(yielded == nonce_offs_upto(E, rs, min(maxrange, max(len(E) - 7, 0))))
+    loop(0, index="k", invariant=[real_size == rs, k <= max(len(E) - 7, 0), yielded == nonce_offs_upto(E, rs, k)])
     domain(fh=files(alphabet=b"\x00\x01\x09", minlen=7, maxlen=9), real_size=ints(None, 9, 10), maxrange=ints(0, 1, 2, 5))
+
+
+@lemma(props=["C09"])
+def xview_is_xplain(E: "bytes", off: "int", i: "int"):
+    """the built-in decoded view is the plaintext the XorEncodedFile contracts are stated against"""
+    requires(0 <= off, 0 <= i, i < len(xview(E, off)))
+    ensures(xview(E, off)[i] == xplain_at(E, off, i), len(xview(E, off)) == xplen(E, off))
+
+
+@lemma(props=["C09"])
+def nonce_offsets_sound(E: "bytes", rs: "int", hi: "int"):
+    ensures(forall(lambda j: nonce_cand(E, nonce_offs_upto(E, rs, hi)[j], rs) and nonce_offs_upto(E, rs, hi)[j] < hi,
+                   0, len(nonce_offs_upto(E, rs, hi))))
+    decreases(hi)
+    if hi > 0:
+        nonce_offsets_sound(E, rs, hi - 1)
+
+
+@lemma(props=["C09"])
+def nonce_offsets_complete(E: "bytes", rs: "int", hi: "int", c: "int"):
+    requires(0 <= c, c < hi, nonce_cand(E, c, rs))
+    ensures(contains(nonce_offs_upto(E, rs, hi), c))
+    decreases(hi)
+    if c < hi - 1:
+        nonce_offsets_complete(E, rs, hi - 1, c)
+
+
+@lemma(props=["C09"])
+def nonce_offsets_complete_all(E: "bytes", rs: "int", hi: "int"):
+    ensures(forall(lambda c: implies(nonce_cand(E, c, rs), contains(nonce_offs_upto(E, rs, hi), c)), 0, hi,
+                   trigger=nonce_cand(E, c, rs)))
+    decreases(hi)
+    if hi > 0:
+        nonce_offsets_complete_all(E, rs, hi - 1)
+        assert_(forall(lambda c: implies(contains(nonce_offs_upto(E, rs, hi - 1), c), contains(nonce_offs_upto(E, rs, hi), c)),
+                       0, hi, trigger=nonce_cand(E, c, rs)))
+        assert_(implies(nonce_cand(E, hi - 1, rs), nonce_offs_upto(E, rs, hi)[len(nonce_offs_upto(E, rs, hi - 1))] == hi - 1))
+
+
+@contract("dissect.cobaltstrike.xordecode:XorEncodedFile.from_file", props=["C09", "C01", "C08"])
+def _(cls: "class:dissect.cobaltstrike.xordecode:XorEncodedFile", fh: "file", maxrange: "int"):
+    """returns a candidate (size relation or end-of-stub marker + 3) whose decoded view contains a valid PE
+    header pair, positioned at logical offset 0; raises ValueError only if no candidate within the search
+    range has one.  Which of several working candidates is returned (Counter order) is not specified."""
+    requires(maxrange >= 1)
+    modifies(fh)
+    ghost(entry=True, do=[let("E", file_content(fh))])
+    raises(ValueError, when=forall(lambda c: implies(nonce_cand(E, c, len(E)) and c < maxrange, not xok(E, c)), 0, len(E) + 1)
+           and forall(lambda o: implies(occ(E, b"\xff\xff\xff", o) and o + 3 <= maxrange, not xok(E, o + 3)), 0, len(E) + 1))
+    ensures(xcandidate(E, result.nonce_offset) and xok(E, result.nonce_offset))
+    ensures(xf_inv(E, result.nonce_offset, result.initial_nonce, file_pos(fh)), file_pos(fh) == result.nonce_offset + 8)
+    returns("obj:XorEncodedFile")
+    result_alias(fh=fh)
+    domain(fh=gen_xorencoded_files(), maxrange=ints(1024, 5, 1))
+    ghost(after="nonce_offsets = list(iter_nonce_offsets(fh, maxrange=maxrange))", do=[
+        let("HI", min(maxrange, max(len(E) - 7, 0))),
+        nonce_offsets_sound(E, len(E), HI),
+        let("NO", nonce_offs_upto(E, len(E), HI)), assert_(nonce_offsets == NO)])
+    ghost(before="xf = None", do=[let("EO", eof_shellcode_offsets), let("ALL", eof_shellcode_offsets + nonce_offsets),
+                                  assert_(forall(lambda j: xcandidate(E, ALL[j]) and ALL[j] >= 0, 0, len(ALL)))])
+    loop(0, index="k", invariant=[
+        forall(lambda j: not xok(E, iter_seq[j][0]), 0, k)],
+        locals={"xf": "any", "found_nonce_offset": "int"})
+    ghost(before='raise ValueError(f"MZ header not found for: {fh}")', do=[
+        nonce_offsets_complete_all(E, len(E), HI),
+        assert_(forall(lambda c: implies(nonce_cand(E, c, len(E)) and c < maxrange, contains(NO, c)), 0, len(E) + 1,
+                       trigger=nonce_cand(E, c, len(E)))),
+        assert_(forall(lambda o: implies(occ(E, b"\xff\xff\xff", o) and o + 3 <= maxrange, contains(EO, o + 3)), 0, len(E) + 1,
+                       trigger=occ(E, b"\xff\xff\xff", o))),
+        contains_cat_all(EO, NO), assert_(ALL == EO + NO),
+        assert_(forall(lambda c: implies(contains(ALL, c), not xok(E, c)), 0, len(E) + 1, trigger=xok(E, c))),
+    ])
